@@ -133,7 +133,9 @@ void exec_op(World& W, TaskCtx& T, const Op& op, bool concurrent) {
     }
     case OP_RELEASE: rec.exp = pickv(T.own_exps, op.a[0]); skip = rec.exp < 0; break;
     case OP_Q_SAT: {
-      // own expectation, or one of the controller's long-lived ones
+      // a destruction requirement this task owns (its object may belong to another task) ...
+      if ((op.a[1] & 2) && !T.own_mons.empty()) { rec.mon = pickv(T.own_mons, op.a[0]); break; }
+      // ... or an own expectation, or one of the controller's long-lived ones
       const std::vector<int>& ll = W.tasks[static_cast<size_t>(W.ntasks)].own_exps;
       if ((op.a[1] & 1) && !ll.empty()) rec.exp = pickv(ll, op.a[0]); else rec.exp = pickv(T.own_exps, op.a[0]);
       if (rec.exp < 0 && !ll.empty()) rec.exp = pickv(ll, op.a[0]);
@@ -185,7 +187,7 @@ void exec_op(World& W, TaskCtx& T, const Op& op, bool concurrent) {
         o.outcome = OC_DONE;
         break;
       case OP_Q_SAT: {
-        trompeloeil::expectation* e = W.exps[static_cast<size_t>(rec.exp)].ep.get();
+        trompeloeil::expectation* e = rec.mon >= 0 ? W.mons[static_cast<size_t>(rec.mon)].get() : W.exps[static_cast<size_t>(rec.exp)].ep.get();
         o.flag = e->is_satisfied(); o.flag2 = e->is_saturated(); o.outcome = OC_FLAG;
         break;
       }
@@ -284,6 +286,12 @@ Plan gen_plan_t(uint64_t seed, bool faults) {
   };
   int nll = rng.range(0, 3);
   for (int i = 0; i < nll; ++i) p.setup.push_back(gen_expect(rng.chance(1, 2)));
+  int nsw = rng.chance(1, 2) ? rng.range(1, 3) : 0;
+  for (int i = 0; i < nsw; ++i) { Op o; o.kind = OP_NEW_WATCHED; o.a[1] = rng.below(100); o.a[2] = rng.below(8); p.setup.push_back(o); }
+  for (int i = 0; i < nsw; ++i) {
+    int nreq = rng.range(0, 2);
+    for (int j = 0; j < nreq; ++j) { Op o; o.kind = OP_REQ_DESTRUCTION; o.a[0] = i; o.a[1] = rng.below(3); o.a[3] = rng.below(8); o.a[7] = rng.below(4); p.setup.push_back(o); }
+  }
   p.tasks.resize(static_cast<size_t>(p.cfg.ntasks));
   int maxops = p.cfg.ntasks <= 3 ? 8 : p.cfg.ntasks <= 5 ? 6 : 4;
   for (int t = 0; t < p.cfg.ntasks; ++t) {
@@ -299,7 +307,7 @@ Plan gen_plan_t(uint64_t seed, bool faults) {
                 break;
         case 1: o = gen_expect(nseqs > 0 && rng.chance(1, 2)); break;
         case 2: o.kind = OP_RELEASE; o.a[0] = rng.below(8); break;
-        case 3: o.kind = OP_Q_SAT; o.a[0] = rng.below(8); o.a[1] = rng.below(2); break;
+        case 3: o.kind = OP_Q_SAT; o.a[0] = rng.below(8); o.a[1] = rng.below(4); break;
         case 4: o.kind = OP_Q_COMPLETED; o.a[0] = rng.below(4); break;
         case 5: o.kind = OP_NEW_WATCHED; o.a[1] = rng.below(100); break;
         case 6: o.kind = OP_REQ_DESTRUCTION; o.a[0] = rng.below(4); o.a[1] = rng.below(3); o.a[7] = rng.below(4); break;
@@ -309,6 +317,8 @@ Plan gen_plan_t(uint64_t seed, bool faults) {
       }
       p.tasks[static_cast<size_t>(t)].push_back(o);
     }
+    // often a task lets go of the mocks before its scope unwinds (its expectations are then released after the drop)
+    if (rng.chance(2, 3)) for (int m = 0; m < nmocks; ++m) { Op o; o.kind = OP_DROP_MOCK_REF; o.a[0] = 0; o.a[1] = 1; p.tasks[static_cast<size_t>(t)].push_back(o); }
   }
   return p;
 }
@@ -343,9 +353,32 @@ TResult run_modet(const Plan& plan) {
   W.task_refs.assign(static_cast<size_t>(W.ntasks) + 1, W.mocks);
   for (int t = 0; t <= W.ntasks; ++t) for (size_t m = 0; m < W.mocks.size(); ++m) W.tasks[static_cast<size_t>(t)].held_mocks.push_back(static_cast<int>(m));
   for (auto& op : plan.setup) if (op.kind == OP_EXPECT) exec_op(W, C, op, false);
+  // watched objects and destruction requirements created before the tasks start, then handed to (different) tasks:
+  // the object is destroyed by one task while another owns, queries and releases the requirement
+  for (auto& op : plan.setup) if (op.kind == OP_NEW_WATCHED) exec_op(W, C, op, false);
+  {
+    std::vector<std::pair<int, int>> mon_owner;   // (monitor id, owner task)
+    for (auto& op : plan.setup) if (op.kind == OP_REQ_DESTRUCTION) {
+      size_t before = C.own_mons.size();
+      exec_op(W, C, op, false);
+      if (C.own_mons.size() > before) mon_owner.push_back({C.own_mons.back(), ((op.a[3] % W.ntasks) + W.ntasks) % W.ntasks});
+    }
+    size_t k = 0;
+    for (auto& op : plan.setup) if (op.kind == OP_NEW_WATCHED && k < C.own_watched.size()) {
+      int owner = ((op.a[2] % W.ntasks) + W.ntasks) % W.ntasks;
+      W.tasks[static_cast<size_t>(owner)].own_watched.push_back(C.own_watched[k++]);
+    }
+    C.own_watched.clear();
+    for (auto& mo : mon_owner) W.tasks[static_cast<size_t>(mo.second)].own_mons.push_back(mo.first);
+    C.own_mons.clear();
+  }
   size_t setup_recs = C.recs.size();
   for (int t = 0; t < W.ntasks; ++t) W.tasks[static_cast<size_t>(t)].plan = plan.tasks[static_cast<size_t>(t)];
-  W.mocks.clear();  // the controller keeps its references in task_refs[ntasks]
+  // the controller keeps no reference during the concurrent phase: the task that drops the last one destroys the mock
+  // there and then, concurrently with whatever the other tasks still do with expectations attached to it
+  W.mocks.clear();
+  for (auto& r : W.task_refs[static_cast<size_t>(W.ntasks)]) r.reset();
+  C.held_mocks.clear();
   // ---- concurrent phase ----
   {
     std::vector<std::thread> th;
@@ -383,7 +416,7 @@ TResult run_modet(const Plan& plan) {
   S.M.mocks.resize(plan.setup.size());  // upper bound, trimmed below
   size_t nm = 0, ns = 0;
   for (auto& op : plan.setup) { if (op.kind == OP_NEW_MOCK) ++nm; if (op.kind == OP_NEW_SEQ) ++ns; }
-  S.M.mocks.assign(nm, MMock()); for (size_t i = 0; i < nm; ++i) { S.M.mocks[i].id = static_cast<int>(i); S.refs[static_cast<int>(i)] = W.ntasks + 1; }
+  S.M.mocks.assign(nm, MMock()); for (size_t i = 0; i < nm; ++i) { S.M.mocks[i].id = static_cast<int>(i); S.refs[static_cast<int>(i)] = W.ntasks; }
   S.M.seqs.assign(ns, MSeq()); for (size_t i = 0; i < ns; ++i) S.M.seqs[i].id = static_cast<int>(i);
   S.M.exps.assign(static_cast<size_t>(MAXT) * EXP_PER_TASK, MExp()); for (auto& e : S.M.exps) e.alive = false;
   S.M.mons.assign(static_cast<size_t>(MAXT) * MON_PER_TASK, MMon()); for (auto& m : S.M.mons) m.alive = false;
